@@ -353,6 +353,7 @@ let parsed_adf: Adf = parsed_custom_adf.into();
     unused_extern_crates,
     variant_size_differences
 )]
+#![allow(unexpected_cfgs)]
 
 pub mod adf;
 pub mod adfbiodivine;
@@ -362,3 +363,5 @@ pub mod obdd;
 pub mod parser;
 #[cfg(test)]
 mod test;
+#[cfg(adf_obdd_verif)]
+pub mod verif;
